@@ -644,6 +644,7 @@ func runCheck(id, tier string, cfg propCfg) int {
 		evDir = filepath.Join(verifDir, "evidence", "other-tree")
 	}
 	os.MkdirAll(evDir, 0o755)
+	os.WriteFile(filepath.Join(evDir, id+"."+tier+".json"), b, 0o644) // per-tier copy, kept alongside the latest
 	if err := os.WriteFile(filepath.Join(evDir, id+".json"), b, 0o644); err != nil {
 		fmt.Fprintln(os.Stderr, err)
 		return 2
